@@ -240,6 +240,42 @@ def check_when(ctx: Context, rep, rule: str) -> None:
            loc="src/sedpack/io/dataset_filler.py:1", where="sedpack.io",
            construct=f"{n_hold} holder(s) of a DatasetStructure, all aliases",
            message="holders of the dataset structure found and checked")
+    # a failure while hashing is an error, never a digest: no handler around
+    # a call that reaches hash_checksums turns the exception into a value
+    rep.rule(
+        "C16.errors",
+        "every try statement of sedpack.io whose body contains a call that "
+        "reaches hash_checksums has only handlers that re-raise on every "
+        "path (an `except OSError: return ()` records no digests for an "
+        "intact file that could not be read once)")
+    hc_fq = f"{UT}:hash_checksums"
+    n_try = 0
+    for fn_ in ctx.repo.all_functions():
+        if not fn_.module.name.startswith("sedpack.io") or isinstance(
+                fn_.node, ast.Lambda):
+            continue
+        for t_ in [x for x in fn_.body_nodes() if isinstance(x, ast.Try)]:
+            reach = False
+            for s_ in t_.body:
+                for x in ast.walk(s_):
+                    if isinstance(x, ast.Call):
+                        for tg in ctx.internal_targets(fn_, x):
+                            if tg.fq == hc_fq or hc_fq in ctx.cg.reachable(
+                                    [tg.fq]):
+                                reach = True
+            if not reach:
+                continue
+            for h_ in t_.handlers:
+                n_try += 1
+                from sa.context import raises_in as _ri
+                rep.ob("C16.errors", _ri(h_.body), loc=fn_.loc(h_),
+                       where=fn_.qualname,
+                       construct="except " + (short(h_.type, 30) if h_.type
+                                              is not None else "") + ": " +
+                       short(h_.body[-1], 40),
+                       message="a failure of the digest computation is "
+                       "converted into a normal result")
+    rep.info("C16.errors", f"{n_try} handler(s) around digest computations")
     from sa.rules import shared
     shared.check_no_memo(ctx, rep, "C16.memo")
 
@@ -362,6 +398,27 @@ def run(ctx: Context, rep) -> None:
     rep.ob("C16.feed", ok_open, loc=hc.loc(opens[0]) if opens else hc.loc(),
            where=hc.qualname, construct=short(opens[0]) if opens else "<none>",
            message="the named file is read in binary mode")
+    # each hash object sees the file once: the open / read block is not
+    # repeated (a retry loop around it feeds the bytes of the failed attempt
+    # and then the whole file into the same objects) unless the objects are
+    # created inside the same loop
+    from sa.model import ancestors as _anc16
+    for o_ in opens:
+        loops_ = [a for a in _anc16(o_) if isinstance(
+            a, (ast.For, ast.While, ast.AsyncFor))]
+        makers = [n for n in hc.body_nodes() if isinstance(
+            n, (ast.Assign, ast.AnnAssign)) and any(
+                isinstance(x, ast.Call) and any(
+                    t.qualname.endswith("_get_hash_function")
+                    for t in ctx.internal_targets(hc, x))
+                for x in ast.walk(n))]
+        stale = [lp for lp in loops_ if not any(
+            any(m is x for x in ast.walk(lp)) for m in makers)]
+        rep.ob("C16.feed", not stale, loc=hc.loc(o_), where=hc.qualname,
+               construct=("open(..) inside " + short(stale[0], 40)) if stale
+               else "the file is opened once per set of hash objects",
+               message="the read is repeated (retry loop) with the same hash "
+               "objects: a failed attempt leaves its bytes in the digest")
     updates = [c for c in hc.calls() if isinstance(c.func, ast.Attribute) and
                c.func.attr == "update"]
     rep.ob("C16.feed", len(updates) == 1, loc=hc.loc(), where=hc.qualname,
